@@ -206,7 +206,13 @@ class Generator:
         if isinstance(d, D.FloatModularDescriptor):
             return rand_float(rng, None, special=False)
         if isinstance(d, D.FloatDescriptor):
-            return rand_float(rng, d.bounds)
+            v = rand_float(rng, d.bounds)
+            if d.bounds is None and v == v and abs(v) < 1e30 and rng.random() < 0.12:
+                # the same number as a numpy floating scalar of another width (a value taken out of a float32 array, a long double):
+                # a float field holds a float whatever floating type it was given
+                import numpy
+                return rng.choice([numpy.float32, numpy.float16 if abs(v) < 6e4 else numpy.float32, numpy.longdouble, numpy.float64])(v)
+            return v
         if isinstance(d, D.DateTimeDescriptor):
             import numpy
             if rng.random() < 0.7:
